@@ -425,6 +425,11 @@ func (b Browse) ServeHTTP(w http.ResponseWriter, r *http.Request) (int, error) {
 		u.Path = "/"
 	}
 	if u.Path[len(u.Path)-1] != '/' {
+		for strings.HasPrefix(u.Path, "//") {
+			// prevent path-based open redirects ("//host/" would be
+			// read as a network-path reference by the client)
+			u.Path = strings.TrimPrefix(u.Path, "/")
+		}
 		u.Path += "/"
 		http.Redirect(w, r, u.String(), http.StatusMovedPermanently)
 		return http.StatusMovedPermanently, nil
